@@ -49,6 +49,8 @@ MUTANTS = {
         match self.fs.bmap(ctx.context(), ctx.nodeid(), block, blocksize) {"""),
     ],
     'C02': [
+        ('bytes-to-cstr-drops-nul', 'src/lib.rs', "        Some(pos) => CStr::from_bytes_with_nul(&buf[0..=pos]).map_err(Error::InvalidCString),", "        Some(pos) => CStr::from_bytes_with_nul(&buf[0..=pos + 1]).map_err(Error::InvalidCString),"),
+        ('two-cstrs-second-from-first', 'src/api/server/mod.rs', "                return Ok((first, bytes_to_cstr(&buf[pos..])?));", "                return Ok((first, bytes_to_cstr(&buf[pos - 1..])?));"),
         ('flush-swap-fh-owner', S, ".flush(ctx.context(), ctx.nodeid(), fh.into(), lock_owner)", ".flush(ctx.context(), ctx.nodeid(), lock_owner.into(), fh)"),
         ('mkdir-swap-mode-umask', S, ".mkdir(ctx.context(), ctx.nodeid(), name, mode, umask)", ".mkdir(ctx.context(), ctx.nodeid(), name, umask, mode)"),
         ('getattr-drop-flag-test', S, "        let handle = if (flags & GETATTR_FH) != 0 {", "        let handle = if flags != 0 {"),
